@@ -145,6 +145,11 @@ def run(ctx):
         # covariance floors below, at and above the BIC threshold 2e-5
         runs = runs + e2e.cached_runs(ctx, [{"N": 2, "W": 2, "K": 2, "beta": 3.0, "lam": 0.11, "limit": 3, "m": 2, "biased": False, "eps": eps, "joint": False,
                                              "lengths": [60], "data_seed": 41 + j, "rng_seed": 41 + j, "regimes": 2} for j, eps in enumerate([1e-9, 1e-6, 2e-5, 1e-3])], "c16")
+        # real worker processes (3 of them, more clusters than workers): whatever is computed in the workers comes back in an
+        # order the parent does not control
+        runs = runs + e2e.cached_runs(ctx, [{"N": 2, "W": 1 + j % 2, "K": 4 + j % 2, "beta": [3.0, 8.0][j % 2], "lam": 0.11, "limit": 3, "m": 2, "biased": False,
+                                             "eps": 0, "joint": False, "lengths": [120], "data_seed": 1600 + j, "rng_seed": 1600 + j, "regimes": 4,
+                                             "mp": True, "procs": 3} for j in range(ctx.budget(4, 10))], "c16mp")
         for r in runs:
             ctx.count("run")
             if r["error"] is not None:
